@@ -408,6 +408,12 @@ func RUnlock(m RLocker) {
 }
 
 func (s *Sched) acquired(m any, t *Task, mode int) {
+	if s.pol.Overlap > 1 {
+		// race mode: no holder bookkeeping. Every call here would be a synchronisation through
+		// the scheduler's own mutex in the middle of a segment, i.e. a happens-before edge between
+		// tasks that reservoir itself does not order, hiding real races from the detector.
+		return
+	}
 	s.mu.Lock()
 	ls := s.locks[m]
 	if ls == nil {
@@ -423,6 +429,9 @@ func (s *Sched) acquired(m any, t *Task, mode int) {
 }
 
 func (s *Sched) released(m any, mode int) {
+	if s.pol.Overlap > 1 {
+		return
+	}
 	g := gid()
 	s.mu.Lock()
 	ls := s.locks[m]
